@@ -80,7 +80,7 @@ def check_welltyped(v, ty, registered: set, siblings: dict | None = None, path: 
     origin = get_origin(ty)
     if ty in BASE:
         if typing_ and not _exact_base(v, ty):
-            raise Verdict(f"welltyped:base-{ty.__name__}-holds-{type(v).__name__}", {"path": path, "value": repr(v)[:80]})
+            raise Verdict(f"welltyped:base-{ty.__name__}-holds-{type(v).__name__}", {"path": path, "value": show(v)})
         return
     if origin is list:
         if typing_ and not isinstance(v, list):
@@ -179,7 +179,7 @@ def check_refinement(v, base, mh, siblings: dict, path: str):
     else:
         return  # user-defined metahandler without a documented predicate
     if bad is not None:
-        bad.update({"path": path, "value": repr(v)[:80]})
+        bad.update({"path": path, "value": show(v)})
         raise Verdict(f"refinement:{name}-violated", bad)
 
 
@@ -231,3 +231,16 @@ def struct_eq(a, b) -> bool:
         if not struct_eq(field_value(a, i, n), field_value(b, i, n)):
             return False
     return True
+
+
+def show(v):
+    """nested description of a program without formatting symbolic values into strings (building a
+    string from a symbolic integer is very expensive under CrossHair); realised at a failure only"""
+    if isinstance(v, (list, tuple)):
+        return [show(e) for e in v]
+    if isinstance(v, BASE) or type(v) in BASE:
+        return v
+    try:
+        return [type(v).__name__] + [show(field_value(v, i, n)) for i, (n, _) in enumerate(fields(type(v)))]
+    except Exception:
+        return type(v).__name__
